@@ -514,7 +514,9 @@ def explicit_routing(a):
     a.rpc(method('RoutePrefixed', r, Q('Book'), http=('post', '/v1/{name=shelves/*}:routep', '*'),
                  routing=[('table', 'shelves/*/{book_id=books/*}')]),
           method('RouteInfix', r, Q('Book'), http=('post', '/v1/{name=shelves/*}:routei', '*'),
-                 routing=[('table', 'shelves/*/books/{leaf_id=*}/pages/*')]))
+                 routing=[('table', 'shelves/*/books/{leaf_id=*}/pages/*')]),
+          # the empty annotation (AIP-4222: no routing header, not even the implicit one)
+          method('RouteNone', r, Q('Book'), http=('post', '/v1/{name=shelves/*}:routen', '*'), routing=[]))
 
 
 @edit
